@@ -49,12 +49,16 @@ LEVEL_TEXT = ("Theorems (Coq, over the reals, every valid table N >= 3, every pr
               "ALL of these scale with the prefactor as Interpolate does: Integrate under c is c times Integrate under 1, local and global extrema in 1-D and 2-D are c times those under 1, minimum and maximum exchanged for c <= 0 "
               "(C08_prefactor_scaling, C08_prefactor_scaling_2d, C08_local_extrema_scale); the default-constructed objects are proved to be such objects of a valid all-zero table. "
               "Floating point: for ANY number type whose comparisons form a total order (IEEE doubles without NaN, rounding included), any table length, prefactor and limits, the value Local_Minimum/Maximum returns is exactly the least/greatest of the candidates -- Interpolate at the two limits and prefactor*f_k for every tabulated abscissa k = i_1..i_2+1 inside the limits (C08_local_minimum_select, C08_local_maximum_select; no arithmetic law is used); this is the exact reference the S4 predicates compare the library with. "
+              "Likewise Global_Minimum/Maximum, 1-D and 2-D, for any such number type and any table size: the value returned is exactly min / max of prefactor*f_min and prefactor*f_max with f_min / f_max an entry of the table not above / not below ANY entry (of any row in 2-D) (C08_global_extrema_select). "
+              "For ANY number type, no law assumed: Integrate(a,b) and Integrate(b,a) form the same sum and differ only in the final factor 1 / -1 (bit-exact antisymmetry on doubles), and any history of Set_Prefactor/Multiply changes the prefactor only, to the left fold of the history (C08_any_number_type). "
+              "The constructor Interpolation_2D(data_table,...) applied to the x-major listing of ANY valid grid makes exactly the object the constructor from lists makes (sort/unique recover the axes, the fill loop the values; C08_table_constructor_grid), and a table with a row not of three entries terminates the process (C08_table_constructor_bad_row). "
               "The same Gallina terms are extracted and run against the C++ classes on every run, and every clause is "
               "evaluated on the implementation's output (S4: exact reference for the extrema, Gauss quadrature for the integrals, dense sampling). "
               "Programs with several objects: the classes have value semantics, modelled by a store of objects (lstep); theorems: a copy (copy construction / assignment, by-value parameter, vector element) or a moved object keeps the table and prefactor of its source through every later operation on other objects, re-assignment or destruction of the source included; that the C++ objects behave like this store is tied by correspondence and S4 (sessions). "
               "Long tables: the loops of Integrate and Local_Minimum/Maximum can be cut after any number of steps and resumed with the running value (theorems, any NumOps instance); tables of 10^2..10^5 points are run through the extracted functions window by window, "
               "with the remarkable ordinate placed at the first / last abscissa inside the limits and with blocks of ordinates 2^10..2^300 times larger elsewhere in the table. "
-              "Not a theorem: that the EXTREMA bound the curve in the 1 % extrapolation zone -- they do not (known finding K-C08-1; no refutation theorem is stated, the witness is replayed on every run); the objects made by the data-table constructors are tied to those made from lists by the theorems of C01 (construct_rows_complete) and otherwise by correspondence and S4; "
+              "REFUTED for the model (theorem C08_global_bound_accepted_points_refuted, witness replayed on the library on every run, corpus/C08/refuted.case): that Global_Minimum bounds EVERY accepted evaluation -- on the straight-line table 0,1,2 -> 0,1,2 Interpolate(-1/200) = -1/200 < 0 = Global_Minimum (known finding K-C08-1). "
+              "Not a theorem: the analogous failure of Local_Minimum/Maximum in the zone (K-C08-1, witness replayed on every run, no refutation theorem); the 1-D data-table constructor is tied to the list constructor by the theorems of C01 (construct_rows_complete), the other error branches of the 2-D data-table constructor (size mismatch, rows out of order) by correspondence and S4 only; "
               "rounding of the arithmetic in Interpolate and Integrate (the integrals are compared with quadrature within the a-priori slack).")
 LEVEL_NOTE = ("Coq 8.16.1 kernel; theorems over R use the standard library's real-number axioms and Coquelicot; hand-written model tied by differential "
               "correspondence (extraction with ExtrOcamlBasic only); std::min_element/max_element modelled as first smallest / first largest by a fold")
@@ -65,7 +69,8 @@ TRUSTED = ["std::min_element / std::max_element are modelled by a left fold keep
            "several objects (s1, r1, s2, r2): the driver maps construction, copy, move, destruction and swap of the C++ objects to the operations LPut, LCopy, LMove, LDrop, LSwap of the store model",
            "the model answers every query from the search state of a fresh object (the search state machine is property C09); the harness asks copies (t1, d1, t0, t2, d2, z2) or the one live object (h1, e1, h0, h2)"]
 ASSUMPTIONS = ["the extremum theorems (bounds of the curve, bounded integral, nesting, scaling) assume limits inside [x_0, x_{N-1}]; the integral theorems hold for every accepted limit, the 1 % extrapolation zone included",
-               "C08_local_minimum_select / C08_local_maximum_select assume OrdLaws (comparisons form a total order: no NaN among the values compared)"]
+               "C08_local_minimum_select / C08_local_maximum_select / C08_global_extrema_select assume OrdLaws (comparisons form a total order: no NaN among the values compared)",
+               "C08_table_constructor_grid: the data table lists a valid grid (strictly increasing axes, at least 2 x 2) in x-major order, over the reals (std::sort / std::unique by specification)"]
 
 NS = 48   # dense sampling of an extremum query
 
